@@ -52,7 +52,28 @@ Fixpoint has_uncovered (n : node) : bool :=
         has_uncovered (snd a) || match vnode 0 (snd a) (vs0, vs0) with None => true | _ => false end) args
   | Arr _ i _ | NoInline i | TrackCaller _ i | CustomInv _ _ _ i => has_uncovered i
   | _ => false end.
+(** does the interpreter model (Exec.v) run every construct of the tree?  (otherwise it answers Unk
+    and the frame theorem holds only vacuously for runs that reach that construct) *)
+Definition mod_modelled (mk : modk) (nargs : nat) : bool :=
+  match mk, nargs with
+  | (MDip | MGap | MOn | MBy | MWith | MOff | MAbove | MBelow | MBoth | MCase | MDipN _), 1 => true
+  | (MFork | MBracket | MFill | MTry), 2 => true
+  | _, _ => false end.
+Fixpoint exec_modelled (n : node) : bool :=
+  match n with
+  | Push _ | Prim _ _ _ | Call _ _ | Unpack _ _ | PushUnder _ | CopyToUnder _ | PopUnder _
+  | Label | RemoveLabel | Format _ | SetOutputComment => true
+  | Run ns => forallb exec_modelled ns
+  | Mod mk args => mod_modelled mk (length args) && forallb (fun a : sig * node => exec_modelled (snd a)) args
+  | Arr _ i _ | NoInline i | TrackCaller _ i => exec_modelled i
+  | CustomInv _ has _ i => negb has || exec_modelled i
+  | Switch brs _ _ => forallb (fun a : sig * node => exec_modelled (snd a)) brs
+  | PrimIndet _ | CallGlobal _ _ | CallMacro _ _ | BindGlobal | MatchFormat _ | Dynamic _ => false
+  end.
+(** 0 = inside the premises and fully run by the model; 4 = inside the premises but some construct
+    is outside the interpreter model (iterating modifiers, loops, globals...) *)
 Definition tree_class (asm : list node) (n : node) : N :=
+  if tree_okb asm n && negb (exec_modelled n && forallb exec_modelled asm) then 4%N else
   if tree_okb asm n then 0%N
   else if has_unproved n then 1%N
   else if has_uncovered n then 3%N else 2%N.
